@@ -314,3 +314,20 @@ def c037(ctx, rid='C03.7'):
            '%d push site(s) into guarded Vec<Event> buffers; %s' % (len(grows), 'no shrinking operation on any of them' if not shrinks else
                                                                     '%s applies %s to the history buffer: the snapshot written from it loses frames the log and the subscribers have' % (shrinks[0][0].path, shrinks[0][1].name)),
            line=shrinks[0][1].line if shrinks else 0)
+
+    # ---------------------------------------------------------------- C03.9
+    ctx.rule('C03.9', 'nothing is streamed that is not logged: every send of a frame (rip_kernel::Event) on a broadcast channel in ripd sits in a function that also appends to the event log '
+             '(directly, or through a private helper of the module that reaches EventLog::append) — the audited emitters of C03.2 / C06.1. A frame sent straight to a session\'s channel '
+             '(a synthetic "cancelled" notice) is seen by attached clients and by no replay, snapshot or sidecar.')
+    n9 = 0
+    for g in [x for x in P.fns.values() if x.crate == 'ripd']:
+        for s_ in g.calls(r'^tokio::sync::broadcast::Sender::<T>::send$'):
+            if 'rip_kernel::Event' not in (s_.full or ''):
+                continue
+            n9 += 1
+            direct = bool(g.calls(r'EventLog::append$'))
+            via = (not direct) and 'rip_log::EventLog::append' in P.reach_fns([g.path])
+            ctx.ob('C03.9', g, 'streamed-is-logged', direct or via, 'a frame is sent on a broadcast channel here; the same function %s' % (
+                'appends to the event log' if direct else 'reaches EventLog::append through a helper' if via else
+                'NEVER appends to the event log: the frame exists for live subscribers only'), line=s_.line)
+    ctx.floor('C03.9', 'broadcast sends of frames in ripd', n9, 15)
